@@ -172,8 +172,13 @@ Section Abstract.
     end.
 End Abstract.
 
-(** * A canonical embedding (for examples: positions 0, text mode, given names) *)
+(** * A canonical embedding (positions 0, text mode, given names)
+
+    [core_ok] collects, for a core item, the hypotheses on the databases under
+    which its embedding is recognised as that item by [abstract]. *)
 Section Embed.
+  Variable src : str.
+  Variable lt : l2tctx.
   Variable fmt_name : str.                (* the formatting macro used for [KTransparent] *)
   Variable env_name : str.                (* the environment used for [KEnvBody] *)
   Variable sym_name : str -> str.         (* the macro name standing for a replacement string *)
@@ -197,5 +202,24 @@ Section Embed.
         NMath (fst (verb_pos verb)) (snd (verb_pos verb)) text_mode d dl dr (body b)
     | KEnvBody b => NEnv 0 0 text_mode env_name (Some ([], [])) (body b)
     end.
-  Definition embed_items (l : list core) : list (option node) := map (fun k => Some (embed k)) l.
+  Fixpoint embed_items (l : list core) : list (option node) :=
+    match l with [] => [] | k :: r => Some (embed k) :: embed_items r end.
+
+  Fixpoint core_ok (k : core) {struct k} : Prop :=
+    let all := fix all (l : list core) {struct l} : Prop :=
+        match l with [] => True | k :: r => core_ok k /\ all r end in
+    match k with
+    | KText _ | KComment _ _ => True
+    | KGroup b => all b
+    | KTransparent b => transparent_macro lt fmt_name = true /\ all b
+    | KSymbol r _ => symbol_repl lt (sym_name r) = Some r
+    | KSpecials r =>
+        specials_repl lt (spc_chars r) = Some r
+        \/ (assoc (lt_specials lt) (spc_chars r) = None /\ spc_chars r = r /\ str_eqb r [10; 10]%N = false)
+    | KPar => assoc (lt_specials lt) [10; 10]%N = None
+    | KMath _ _ _ verb b => slice src (fst (verb_pos verb)) (snd (verb_pos verb)) = verb /\ all b
+    | KEnvBody b => transparent_env lt env_name = true /\ all b
+    end.
+  Fixpoint cores_ok (l : list core) : Prop :=
+    match l with [] => True | k :: r => core_ok k /\ cores_ok r end.
 End Embed.
